@@ -652,8 +652,89 @@ pub(crate) fn m_table_col_width() {
     }
 }
 
+/// render_table_tree on a table of preset cell estimates (shape and values from the solver's model).
+pub(crate) fn m_table_alloc() {
+    let width: usize = kani::any();
+    let raw: bool = kani::any();
+    let nrows: u8 = kani::any();
+    kani::assume(nrows >= 1 && nrows <= 3);
+    let mut rows = Vec::new();
+    let mut meta: Vec<Vec<(usize, usize, usize)>> = Vec::new();
+    let mut ncols = 0usize;
+    for _ in 0..nrows {
+        let ncells: u8 = kani::any();
+        kani::assume(ncells >= 1 && ncells <= 4);
+        let mut cells = Vec::new();
+        let mut m = Vec::new();
+        let mut tot = 0usize;
+        for k in 0..ncells {
+            let span: usize = kani::any();
+            let size: usize = kani::any();
+            let minw: usize = kani::any();
+            kani::assume(span >= 1 && span <= 4 && minw <= size);
+            tot += span;
+            cells.push(m_mk_cell(span, size, minw, k == 0));
+            m.push((span, size, minw));
+        }
+        ncols = ncols.max(tot);
+        rows.push(RenderTableRow { cells, col_sizes: None, style: Default::default() });
+        meta.push(m);
+    }
+    let table = RenderTable { rows, num_columns: ncols, size_estimate: Cell::new(None) };
+    let mut opts = RenderOptions::default();
+    opts.draw_borders = false;
+    opts.raw = raw;
+    let sub = SubRenderer::new(width, opts, TrivialDecorator::new());
+    let mut tr = TextRenderer::new(sub);
+    let r = render_table_tree(&mut tr, table, &mut std::io::sink());
+    let children = match r {
+        Ok(TreeMapResult::PendingChildren { children, .. }) => children,
+        _ => panic!("render_table_tree failed"),
+    };
+    let (cols, vert) = match &children[0].info {
+        RenderNodeInfo::TableRow(tr, v) => (tr.col_sizes.clone().unwrap(), *v),
+        _ => panic!("not a row"),
+    };
+    assert!(cols.len() == ncols);
+    // reference estimates
+    let mut col_size = vec![0usize; ncols];
+    let mut col_min = vec![0usize; ncols];
+    for m in &meta {
+        let mut c = 0;
+        for &(span, size, minw) in m {
+            for k in c..c + span {
+                col_size[k] = col_size[k].max(size / span);
+                col_min[k] = col_min[k].max(minw / span);
+            }
+            c += span;
+        }
+    }
+    let min_size: usize = col_min.iter().sum::<usize>() + ncols - 1;
+    assert!(vert == (raw || min_size > width || width == 0), "stacked layout decision");
+    if !vert {
+        assert!(cols.iter().sum::<usize>() + ncols - 1 <= width, "columns exceed the table width");
+        for k in 0..ncols {
+            assert!(cols[k] >= col_min[k], "column {} below its minimum width", k);
+            assert!(cols[k] <= col_size[k], "column {} wider than its content", k);
+        }
+        for m in &meta {
+            let mut c = 0;
+            for &(span, size, minw) in m {
+                if size > 0 && minw > 0 {
+                    assert!(cols[c..c + span].iter().sum::<usize>() > 0, "a cell with content got no column width");
+                }
+                c += span;
+            }
+        }
+    } else {
+        for k in 0..ncols {
+            assert!(cols[k] == width);
+        }
+    }
+}
+
 crate::verif_common::registry! {
-    m_into_cells, m_table_col_width,
+    m_into_cells, m_table_col_width, m_table_alloc,
     r1_cascade_pairs, r1_cascade_triples, r2_specificity_order, r2_specificity_add,
     r3_ol_prefix_total, r4_ol_prefix_is_max,
     r9_tree_map_reduce_order, r12_config_plumbing, r12_width_zero,
